@@ -60,6 +60,8 @@ type FuncContract struct {
 	External bool // from /verif/specs/ext
 	NoTerm   bool // termination not claimed
 	Asserts  []*Clause
+	IsLemma  bool     // a lemma over spec expressions: parameters are universally quantified, no code
+	PTypes   []string // lemma parameter types (Go syntax)
 	File     string
 	Line     int
 	Used     bool
@@ -97,7 +99,7 @@ var tagRe = regexp.MustCompile(`^\[([A-Za-z0-9_, ]+)(?::([A-Za-z0-9_\-\.]+))?\]\
 var keywords = map[string]bool{
 	"func": true, "props": true, "requires": true, "ensures": true, "modifies": true,
 	"loop": true, "invariant": true, "decreases": true, "inline": true, "trusted": true,
-	"pure": true, "unroll": true, "spec": true, "package": true, "noterm": true, "assert": true, "axiom": true,
+	"pure": true, "unroll": true, "spec": true, "package": true, "noterm": true, "assert": true, "axiom": true, "lemma": true,
 }
 
 // LoadFile parses a contract file. pkgPath is the default package path
@@ -155,10 +157,18 @@ func (cs *Contracts) LoadFile(path string, pkgPath string, external bool) error 
 		case "package":
 			pkgPath = rest
 			cur, curLoop = nil, nil
-		case "func":
-			fc, err := parseHeader(l.text, pkgPath)
+		case "func", "lemma":
+			hdr := l.text
+			if w == "lemma" {
+				hdr = "func " + strings.TrimSpace(l.text[len("lemma"):])
+			}
+			fc, err := parseHeader(hdr, pkgPath)
 			if err != nil {
 				return errf("%v", err)
+			}
+			if w == "lemma" {
+				fc.IsLemma = true
+				fc.Key = pkgPath + ".lemma:" + fc.Name
 			}
 			fc.File, fc.Line, fc.External = path, l.line, external
 			if external {
@@ -342,12 +352,15 @@ func parseHeader(hdr string, pkgPath string) (*FuncContract, error) {
 	}
 	n := 0
 	for _, p := range fd.Type.Params.List {
+		ts := src[fset.Position(p.Type.Pos()).Offset:fset.Position(p.Type.End()).Offset]
 		if len(p.Names) == 0 {
 			fc.Params = append(fc.Params, fmt.Sprintf("_p%d", n))
+			fc.PTypes = append(fc.PTypes, ts)
 			n++
 		}
 		for _, nm := range p.Names {
 			fc.Params = append(fc.Params, nm.Name)
+			fc.PTypes = append(fc.PTypes, ts)
 			n++
 		}
 	}
